@@ -8,6 +8,7 @@ A   (i) the real listing() rendered without colour is read back and compared;
     wrong ground type; multi-line layouts): exactly one diagnostic, whose range is the offender's text."""
 import json, os
 import vf, grammar
+from checks import pegcommon
 from checks import c07, pipecommon as pc
 
 
@@ -45,6 +46,9 @@ def run(c):
         for m in rr["first"]:
             if m["got"].get("errs") != m["want"].get("errs"):
                 c.violate("unexpected-symbol diagnostics differ on %r" % m["text"], {"kind": "replay-lex-errors", "text": m["text"], "got": m["got"].get("errs"), "want": m["want"].get("errs")})
+    # ---- syntax diagnostics: position, expectation and order as the parser specification prescribes (every token string up to the
+    # bound through parse(); larger inputs through the memo-table trace)
+    pegcommon.run(c, "C15", 400 if c.quick else 4000)
     # probe (i)
     rec = vf.first_tag(vf.tlc_generate("MC_Listing", runs[0][1], runs[0][0])["out"], "LIST", 3000)
     rec = next(x for x in rec if x["lines"] and x["must"][0])
